@@ -250,7 +250,9 @@ func browserSerialisable(o string) bool {
 	}
 	h := pp.Host
 	if h[0] == '[' {
-		return h[len(h)-1] == ']' && !strings.ContainsAny(h[1:len(h)-1], "[]")
+		// an IPv6 literal: hex digits, colons (at least one), possibly a dotted quad at the end
+		in := h[1 : len(h)-1]
+		return h[len(h)-1] == ']' && strings.Contains(in, ":") && strings.Trim(in, "0123456789abcdef:.") == ""
 	}
 	if strings.ContainsAny(h, "[]:") || h[0] == '.' || strings.Contains(h, "..") || strings.Trim(h, "abcdefghijklmnopqrstuvwxyz0123456789.-") != "" {
 		return false
@@ -853,10 +855,10 @@ func viaRoute(route int, cfg Cfg, other *Cfg, debug bool, c *Ctx) (m *cors.Middl
 				return
 			}
 			m.SetDebug(debug)
-			live.Origins = append(live.Origins[:0], cc.Origins...)
-			live.Methods = append(live.Methods[:0], cc.Methods...)
-			live.RequestHeaders = append(live.RequestHeaders[:0], cc.RequestHeaders...)
-			live.ResponseHeaders = append(live.ResponseHeaders[:0], cc.ResponseHeaders...)
+			live.Origins = editInPlace(live.Origins, cc.Origins)
+			live.Methods = editInPlace(live.Methods, cc.Methods)
+			live.RequestHeaders = editInPlace(live.RequestHeaders, cc.RequestHeaders)
+			live.ResponseHeaders = editInPlace(live.ResponseHeaders, cc.ResponseHeaders)
 			live.Credentialed, live.MaxAgeInSeconds, live.ExtraConfig = cc.Credentialed, cc.MaxAgeInSeconds, cc.ExtraConfig
 			if m.Reconfigure(&live) != nil {
 				m = nil
